@@ -116,6 +116,7 @@ class ClassSpec:
     init: dict = dataclasses.field(default_factory=dict)       # (ghost) field -> spec expr at construction
     stable: list = dataclasses.field(default_factory=list)     # fields only the contracted methods change
     mutators: list = dataclasses.field(default_factory=list)   # method names that change stable fields
+    constructible: bool = False     # Class() without contract yields a tracked record with `init` fields
 
 
 def class_spec(**kw):
